@@ -39,6 +39,38 @@ ALPHABET = "abcdefghijklmnopqrstuvwxyzABCDEFGHIJKLMNOPQRSTUVWXYZ0123456789_"
 def generate(rng, tier):
     n = rng.randrange(0, 9 if tier == "quick" else 11)
     fn = rng.choice(FUNCS)
+    if fn in ("articulation_points", "bridges") and rng.random() < 0.004:
+        # hundreds of nodes in many small components (the definitional oracle works component by component)
+        clusters = []
+        adj = []
+        while len(adj) < rng.choice([520, 700, 1100]):
+            k = rng.randrange(2, 7)
+            base = len(adj)
+            local = [[] for _ in range(k)]
+            for u in range(k):
+                for v in range(u + 1, k):
+                    if rng.random() < 0.5 or v == u + 1:
+                        if rng.random() < 0.5:
+                            local[u].append(base + v)
+                        else:
+                            local[v].append(base + u)
+            adj.extend(local)
+            clusters.append([base, k])
+        n = len(adj)
+        order = list(range(n))
+        if rng.random() < 0.5:
+            rng.shuffle(order)
+        return {"fn": fn, "n": n, "adj": adj, "labels": list(range(n)), "order": order, "kw": {}, "fresh": False, "clusters": clusters}
+    if fn == "louvain" and rng.random() < 0.002:
+        # a few thousand edges: the last improving pass may gain next to nothing
+        n = rng.choice([800, 2000])
+        adj = [[] for _ in range(n)]
+        for _ in range(3 * n):
+            u, v = rng.randrange(n), rng.randrange(n)
+            if u != v:
+                adj[u].append(v)
+        return {"fn": fn, "n": n, "adj": adj, "labels": list(range(n)), "order": list(range(n)), "kw": {"resolution": rng.choice([1.0, 1.0, 0.5, 2.0])},
+                "fresh": False}
     if fn == "louvain" and rng.random() < 0.5:
         n = rng.randrange(6, 13)  # local-move cycles need a little room (the tie cycle of 10.3 was found at n = 10)
     if fn == "pagerank" and rng.random() < 0.35:
@@ -107,8 +139,10 @@ def generate(rng, tier):
     if fn == "kcore":
         case["kw"] = {"k": rng.randrange(-1, 6)}
     elif fn == "pagerank":
-        case["kw"] = {"damping": rng.choice([0.5, 0.85, 0.99, 0.125, 0.3]), "tol": rng.choice([1e-3, 1e-6, 1e-10]),
+        case["kw"] = {"damping": rng.choice([0.5, 0.85, 0.99, 0.125, 0.3]), "tol": rng.choice([1e-3, 1e-6, 1e-10, 0.0]),
                       "max_iter": rng.choice([1, 3, 100, 5000])}
+        if case["kw"]["tol"] == 0.0:
+            case["kw"]["max_iter"] = rng.choice([1, 3, 100])
     elif fn == "louvain":
         case["kw"] = {"resolution": rng.choice([1.0, 1.0, 0.25, 0.5, 2.0, 3.0])}
     return case
@@ -142,7 +176,13 @@ def n_components(nodes, edges):
     return len({find(v) for v in nodes})
 
 
+def _sub(case, base, k):
+    return {"n": k, "adj": [[w - base for w in case["adj"][base + u]] for u in range(k)]}
+
+
 def ref_articulation(case):
+    if case.get("clusters"):
+        return {base + v for base, k in case["clusters"] for v in ref_articulation(_sub(case, base, k))}
     n = case["n"]
     es = sym_edges(case)
     base = n_components(range(n), es)
@@ -155,6 +195,8 @@ def ref_articulation(case):
 
 
 def ref_bridges(case):
+    if case.get("clusters"):
+        return {(base + u, base + v) for base, k in case["clusters"] for u, v in ref_bridges(_sub(case, base, k))}
     n = case["n"]
     es = sym_edges(case)
     base = n_components(range(n), es)
@@ -218,7 +260,10 @@ def residual_ratio(case, s):
         for v in a:
             new[v] += d * s[u] / out[u]
     new = [x + d * dang / n for x in new]
-    return max(abs(a - b) for a, b in zip(new, s)) / tol
+    res = max(abs(a - b) for a, b in zip(new, s))
+    if tol == 0:
+        return 0.0 if res == 0 else float("inf")  # OPTIMAL at tol = 0 claims an exact fixed point
+    return res / tol
 
 
 def modularity(case, parts, resolution):
@@ -284,13 +329,15 @@ def execute(case) -> Outcome:
         base_lookup = lookup
         lookup = (lambda v: iter(base_lookup(v))) if ba == "iter" else (lambda v: (w for w in base_lookup(v)))
     try:
-        with budget.steps(STEP_LIMIT) as b:
+        m_edges = sum(len(a) for a in case["adj"])
+        limit = STEP_LIMIT + 4000 * (case["n"] + m_edges)  # small cases keep the flat budget; larger ones scale with size
+        with budget.steps(limit) as b:
             if fn == "kcore":
                 res = f(nodes_arg, lookup, case["kw"]["k"])
             else:
                 res = f(nodes_arg, lookup, **case["kw"])
     except budget.StepBudgetExceeded:
-        o.violate(PROP, "no_return", f"{fn} did not return within {STEP_LIMIT} events", **key)
+        o.violate(PROP, "no_return", f"{fn} did not return within {limit} events", **key)
         return o
     except SOLVER_ERRORS as e:
         o.violate(PROP, f"exception:{type(e).__name__}", f"{fn} raised {type(e).__name__}: {e}", **key)
